@@ -80,4 +80,6 @@ def run(ctx):
         gs = b.call_bool_guards(r"::swap_remove$")
         ok = bool(gs) and all(doomed(b, fal) for bb, tru, fal, si in gs)
         ctx.ob("take_by_ids|missing-id-arm-doomed", ok, "the `id was not present` arm of swap_remove cannot reach Ok (MissingNonFungibleLocalId)", b.loc())
+    import c10
+    c10.check_amount_validity(ctx)
     ctx.assume("the global sum over a history, non-negativity as a value fact and NF count = number of ids are not decided")
